@@ -39,6 +39,7 @@ func runC13(c *Ctx) {
 	c13R3(c)
 	c13NodesDeref(c)
 	c13R4(c)
+	c13Errs(c)
 	if g := newGossipAnchors(c.P); g.ok {
 		gsR1(c, g, "C13.R5")
 	} else {
@@ -1000,5 +1001,32 @@ func c13NodesDeref(c *Ctx) {
 			c.check(ok2, "C13.R6", fnName(fn)+"/nodes-deref["+posRe.ReplaceAllString(path(lk.Index), "")+"]", lk.Pos(), "dereferenced table entry is known present: "+why,
 				"s.nodes[k] is dereferenced although k may be absent (nil pointer dereference): "+why+"; a forged or stale digest naming an unknown node crashes the handler")
 		})
+	}
+}
+
+// c13Errs (C13.R7/R8): the package's error arms are the right way round, and
+// the decoders reject packets of another type or version.
+func c13Errs(c *Ctx) {
+	p := c.P
+	var fns []*ssa.Function
+	for _, fn := range p.ModFuncs {
+		if isTestFile(p.Fset, fn.Pos()) || fn.Parent() != nil || fn.Pkg == nil || fn.Pkg.Pkg.Path() != modPath+"/pkg/gossip" {
+			continue
+		}
+		fns = append(fns, fn)
+	}
+	errDiscipline(c, "C13.R7", fns, 12)
+	c.floor("C13.R8", 5)
+	if fn := p.Func(gsPkg, "streamListener.handleConn"); fn != nil {
+		rejectsMismatch(c, "C13.R8", fn, 1)
+	} else {
+		c.fail("C13.anchor", "streamListener.handleConn", token.NoPos, "not found")
+	}
+	for _, name := range []string{"decodeDigest", "decodeDelta"} {
+		if fn := p.Func(gsPkg, name); fn != nil {
+			rejectsMismatch(c, "C13.R8", fn, 2)
+		} else {
+			c.fail("C13.anchor", name, token.NoPos, "not found")
+		}
 	}
 }
